@@ -58,6 +58,15 @@ Json World::result_json() const
     j.set("vfs_calls", (long long)g_disk.lib_calls);
     j.set("clock_reads", (long long)g_clock_reads);
     j.set("sim_clock", (long long)g_sim_clock);
+    if (!derived.empty())
+    {
+        Json d = Json::object();
+        for (auto& kv : derived)
+            d.set(kv.first, kv.second);
+        j.set("derived", d);
+    }
+    if (have_enumeration)
+        j.set("enumeration", enumeration);
     if (tracing)
     {
         Json tr = Json::array();
